@@ -19,5 +19,5 @@ REQUIRED_CLASSES = {t: ["refusal:missing_argument", "refusal:existing_node", "re
                         "refusal:unknown_node", "refusal:unknown_edge", "refusal:protected_attribute",
                         "refusal:invalid_swap", "refusal:missing_position"]
                     for t in ("quick", "thorough")}
-run_shard, replay, minimise = make(C11Oracle, quick=(480, 30), thorough=(6400, 50), profile="refusal",
+run_shard, replay, minimise = make(C11Oracle, quick=(3200, 30), thorough=(6400, 50), profile="refusal",
                                    refusal_bias=0.25)
